@@ -7,7 +7,7 @@
    ^{} powers, juxtaposition and \cdot as product, + - signs, =, \left( \right), plain ( ), { } groups,
    \left| \right| as Abs, function macros (\sin ... \log_{b} ... \operatorname{f}) applied to a bracket group.
    Precedence is that of ordinary mathematical notation:  = | + - | juxtaposition | ^ ;  a leading minus applies
-   to the whole first term (- a b = -(a b)).  The result is an `aexpr` of Model/CodeSyntax.v, evaluated by `aeval`.
+   to the whole first term (- a b = -(a b)); a term after + or - may carry one sign of its own (a - - b).  The result is an `aexpr` of Model/CodeSyntax.v, evaluated by `aeval`.
    It contains no knowledge of symplyphysics' printer. *)
 From Coq Require Import String Ascii List ZArith NArith Bool Arith.
 From VP Require Import Model.CodeSyntax.
@@ -285,9 +285,19 @@ with t_sum_rest (n : nat) (lhs : aexpr) (ts : list ttok) {struct n} : pres (aexp
   | O => POof
   | S n =>
       match ts with
+      | XPlus :: XMinus :: r =>          (* a + - b *)
+          match t_prod n r with
+          | POk (a, r') => t_sum_rest n (ABin OAdd lhs (ANeg a)) r'
+          | PErr => PErr | POof => POof
+          end
       | XPlus :: r =>
           match t_prod n r with
           | POk (a, r') => t_sum_rest n (ABin OAdd lhs a) r'
+          | PErr => PErr | POof => POof
+          end
+      | XMinus :: XMinus :: r =>         (* a - - b : subtraction of a negated term *)
+          match t_prod n r with
+          | POk (a, r') => t_sum_rest n (ABin OSub lhs (ANeg a)) r'
           | PErr => PErr | POof => POof
           end
       | XMinus :: r =>
